@@ -175,6 +175,58 @@ def c06d(prog, R, L):
                         dep_ok = True
             r.check(dep_ok, "%s|upgrade control-dependent on the sealed-memtable check" % f.path,
                     "the result of the sealed-memtable check does not gate the upgrade", f.where(u.bb))
+    # who may change the set of sealed memtables, and how (one line of reason per writer)
+    SEALED_WRITERS = {
+        A.tm(A.TREE, "rotate_memtable"): ("tree::sealed::SealedMemtables::add", "seals the active memtable (adds one)"),
+        A.tm(A.TREE, "register_tables") + "::{closure#1}": ("tree::sealed::SealedMemtables::remove",
+                                                            "releases exactly the flushed memtables, id by id"),
+        A.TREE_CLEAR + "::{closure#0}": ("<std::sync::Arc<T> as std::default::Default>::default", "clear() empties the tree"),
+        A.BLOB_CLEAR + "::{closure#0}": ("<std::sync::Arc<T> as std::default::Default>::default", "clear() empties the tree"),
+        A.tm(A.TREE, "clear_active_memtable"): ("<tree::sealed::SealedMemtables as std::default::Default>::default",
+                                                "recovery-only reset, no snapshots exist yet"),
+    }
+    seen_w = 0
+    for p, g in sorted(prog.fns.items()):
+        if g.derived:
+            continue
+        for i, b in enumerate(g.blocks):
+            if b.get("cleanup"):
+                continue
+            for st in b["stmts"]:
+                if st["k"] == "assign" and "p" in st["to"] and st["to"]["p"][-1].startswith(".sealed_memtables:version::super_version::SuperVersion"):
+                    seen_w += 1
+                    src = origin_callees(g, st["rv"].get("op")) if st["rv"].get("op") else set()
+                    want = SEALED_WRITERS.get(p)
+                    ok = want is not None and want[0] in src
+                    r.check(ok, "%s|writes SuperVersion.sealed_memtables via %s" % (p, short(want[0]) if want else "?"),
+                            "the set of sealed memtables is changed in an unexpected way (%s): memtables that were not flushed "
+                            "could be released, losing acknowledged writes" % sorted(short(x) for x in src), g.where(i),
+                            want[1] if want else "")
+    if seen_w < 5:
+        r.anchor_missing("writers of SuperVersion.sealed_memtables (found %d)" % seen_w)
+    # the released ids are the ones the flush was given: the id argument of remove() comes from the closure's capture of
+    # the `sealed_memtables_to_delete` parameter
+    reg = prog.fn(A.tm(A.TREE, "register_tables") + "::{closure#1}")
+    if reg is not None:
+        from rules.engine import deep_origins
+        okid = False
+        for c in reg.calls_to("tree::sealed::SealedMemtables::remove"):
+            for (gg, o) in deep_origins(prog, reg, c.args[1]):
+                if gg.path == f.path and o.kind == "param" and f.local_name(o.what) == "sealed_memtables_to_delete":
+                    okid = True
+            # through the for-loop iterator: the id is the item of an iterator over the captured slice
+            if not okid:
+                names = origin_callees(reg, c.args[1])
+                if any(n.endswith("Iterator>::next") for n in names):
+                    for cc in reg.calls:
+                        if cc.sres and cc.sres.endswith("into_iter"):
+                            for (gg, o) in deep_origins(prog, reg, cc.args[0]):
+                                if gg.path == f.path and o.kind == "param" and f.local_name(o.what) == "sealed_memtables_to_delete":
+                                    okid = True
+        r.check(okid, "%s|removed ids come from sealed_memtables_to_delete" % reg.path,
+                "the memtables released by a flush are not the ones it was told it flushed", reg.where())
+    else:
+        r.anchor_missing("register_tables transition closure")
     # flush is callable only with the flush-lock guard
     fl = prog.need(A.ABSTRACT_FLUSH)
     tys = [fl.local_ty(i) for i in range(1, fl.argc + 1)]
@@ -192,7 +244,7 @@ def c06d(prog, R, L):
         r.check(not bad, "%s|flush lock held across rotate..register" % name,
                 "the flush lock is not held at: %s (a concurrent flush could interleave)" % ", ".join(bad), g.where(),
                 "%d step(s)" % len(steps))
-    r.floor(8)
+    r.floor(14)
 
 
 def c06e(prog, R, L):
